@@ -62,7 +62,15 @@ def family(ctx):
     # every branch kind must occur: spurious branches come from `nwait`
     out += ["cfg n=1 | T0: spawn 1; nnotify 0; join 1 | T1: nwait 0",
             "cfg n=1 x=1 | T0: spawn 1; st 0 1 rel; nnotify 0; join 1 | T1: nwait 0; ld 0 acq",
-            "cfg x=1 | T0: spawn 1; stop; st 0 1 rlx; explore; st 0 2 rlx; join 1 | T1: ld 0 rlx; ld 0 rlx"]
+            "cfg x=1 | T0: spawn 1; stop; st 0 1 rlx; explore; st 0 2 rlx; join 1 | T1: ld 0 rlx; ld 0 rlx",
+            # loads / RMWs / spurious waits executed while exploration is off (region, skip_branch, explicit explore):
+            # their path entries are never advanced
+            "cfg x=1 | T0: spawn 1; st 0 1 rlx; st 0 2 rlx; join 1 | T1: stop; ld 0 rlx; explore; ld 0 rlx",
+            "cfg x=2 | T0: spawn 1; st 0 1 rlx; st 1 1 rlx; join 1 | T1: ld 1 rlx; stop; ld 0 rlx; fadd 0 1 rlx; explore; ld 1 rlx",
+            "cfg x=1 | T0: spawn 1; st 0 1 rlx; st 0 2 rlx; join 1 | T1: ld 0 rlx; skip; ld 0 rlx; ld 0 rlx",
+            "cfg explicit=1 x=1 | T0: spawn 1; st 0 1 rlx; st 0 2 rlx; explore; st 0 3 rlx; join 1 | T1: ld 0 rlx; ld 0 rlx",
+            "cfg n=1 x=1 | T0: spawn 1; st 0 1 rlx; nnotify 0; join 1 | T1: stop; nwait 0; ld 0 rlx; explore; ld 0 rlx",
+            "cfg x=1 m=1 | T0: spawn 1; lock 0; st 0 1 rlx; unlock 0; st 0 2 rlx; join 1 | T1: stop; lock 0; ld 0 rlx; unlock 0; explore; ld 0 rlx"]
     return list(dict.fromkeys(out))
 
 
